@@ -25,6 +25,13 @@ pub struct Run {
     pub published_today: bool,
     pub force: bool,
     pub app_path: bool,
+    /// application path only: per look-up the row variant (0 USD without rate; 1 USD with explicit
+    /// rate = no look-up; 2 CAD trade with USD commission without rate; 3 USD trade and USD
+    /// commission, both without rate = the same date looked up twice) and the number of CSV files.
+    #[serde(default)]
+    pub row_kinds: Vec<u8>,
+    #[serde(default)]
+    pub app_files: usize,
     pub lookups: Vec<String>,
     pub net_faults: Vec<Option<String>>,
     pub fs_faults: FsFaultSpec,
@@ -148,20 +155,27 @@ pub fn generate(seed: u64, index: u64) -> Sc {
                 net_faults.push(if r.chance(1, 4) { Some(r.pick(&NET_FAULT_KINDS).to_string()) } else { None });
             }
             if r.chance(1, 4) {
-                match r.below(5) {
+                match r.below(7) {
                     0 => fs_faults.open_write_errno = Some(libc::EACCES),
                     1 => fs_faults.enospc_after_bytes = Some(r.range(0, 9000) as u64),
                     2 => fs_faults.rename_errno = Some(libc::EIO),
                     3 => fs_faults.mkdir_errno = Some(libc::EACCES),
-                    _ => fs_faults.fsync_errno = Some(libc::EIO),
+                    4 => fs_faults.fsync_errno = Some(libc::EIO),
+                    5 => fs_faults.open_read_errno = Some(libc::EACCES),
+                    _ => fs_faults.read_errno = Some(libc::EIO),
                 }
             }
         }
+        let app_path = r.chance(1, 3);
+        let row_kinds: Vec<u8> = if app_path { lookups.iter().map(|_| r.weighted(&[6, 2, 2, 2]) as u8).collect() } else { vec![] };
+        let app_files = if app_path { r.range(1, 3) as usize } else { 1 };
         runs.push(Run {
             today: today.to_string(),
             published_today: pt,
             force,
-            app_path: r.chance(1, 3),
+            app_path,
+            row_kinds,
+            app_files,
             lookups: lookups.iter().map(|d| d.to_string()).collect(),
             net_faults,
             fs_faults,
@@ -240,7 +254,37 @@ impl Engine for C13 {
             if run.app_path {
                 st.bump("probe.app_path_run");
             }
-            let app_rows: Option<Vec<AppRow>> = if run.app_path { Some(lookups.iter().map(|d| AppRow::usd(&d.to_string())).collect()) } else { None };
+            let kind_of = |i: usize| -> u8 { run.row_kinds.get(i).copied().unwrap_or(0) };
+            let app_rows: Option<Vec<AppRow>> = if run.app_path {
+                Some(
+                    lookups
+                        .iter()
+                        .enumerate()
+                        .map(|(i, d)| {
+                            let mut row = AppRow::usd(&d.to_string());
+                            match kind_of(i) {
+                                1 => row.fx = Some(format!("1.{:04}", 1000 + (i * 37) % 3000)),
+                                2 => {
+                                    row.cur = Some("CAD".into());
+                                    row.commission = true;
+                                    row.ccur = Some("USD".into());
+                                }
+                                3 => {
+                                    row.commission = true;
+                                    row.ccur = Some("USD".into());
+                                }
+                                _ => {}
+                            }
+                            row
+                        })
+                        .collect(),
+                )
+            } else {
+                None
+            };
+            if run.app_path && run.app_files > 1 {
+                st.bump("probe.app_path_several_files_one_loader");
+            }
             let obs = run_fx_process(FxPlan {
                 data: boc.clone(),
                 today,
@@ -250,6 +294,7 @@ impl Engine for C13 {
                 mem_in: mem.clone(),
                 lookups: lookups.clone(),
                 app_rows,
+                app_files: run.app_files.max(1),
                 net_faults: run.net_faults.clone(),
                 fs_faults: run.fs_faults.clone(),
                 knobs: Knobs { max_write: sc.max_write, max_read: sc.max_read },
@@ -288,11 +333,15 @@ impl Engine for C13 {
             let refs: Vec<_> = lookups.iter().map(|d| reference.lookup(today, pt, *d)).collect();
             st.add("sim.processes", 0);
             // look-ups actually attempted: the application stops at the first failing row
-            let attempted = if run.app_path { refs.iter().position(|r| r.is_err()).map(|i| i + 1).unwrap_or(refs.len()) } else { refs.len() };
+            let needs_lookup = |i: usize| -> bool { !(run.app_path && kind_of(i) == 1) };
+            let attempted = if run.app_path { (0..refs.len()).position(|i| needs_lookup(i) && refs[i].is_err()).map(|i| i + 1).unwrap_or(refs.len()) } else { refs.len() };
             let mut needed_years: BTreeSet<i32> = BTreeSet::new();
             let mut loaded_from_cache: BTreeSet<i32> = BTreeSet::new();
             let mut miss_after_cache_load = false;
-            for d in lookups.iter().take(attempted) {
+            for (i, d) in lookups.iter().enumerate().take(attempted) {
+                if !needs_lookup(i) {
+                    continue;
+                }
                 let touched = ref_touched(&boc, today, pt, *d);
                 for x in &touched {
                     let y = x.year();
@@ -340,23 +389,29 @@ impl Engine for C13 {
             };
             if run.app_path {
                 let any_net_fault = obs.requests.iter().any(|r| r.fault.is_some());
-                let expect_ok = refs.iter().all(|r| r.is_ok());
+                let expect_ok = (0..refs.len()).all(|i| !needs_lookup(i) || refs[i].is_ok());
                 let got = obs.app.clone().unwrap_or(Err("no result".into()));
                 digest = fnv64_add(digest, format!("{:?}", got.as_ref().map(|v| v.iter().map(|r| r.tx_rate.to_string()).collect::<Vec<_>>())).as_bytes());
                 match (&got, expect_ok) {
                     (Ok(rates), true) => {
                         for rr in rates {
                             if rr.row < refs.len() {
+                                let k = kind_of(rr.row);
+                                if k == 1 {
+                                    continue; // explicit rate: no look-up involved
+                                }
                                 let (_, er) = refs[rr.row].clone().unwrap();
-                                if rr.tx_rate != er {
+                                // kind 2: the looked-up rate is the commission's; kind 3: both
+                                let observed = if k == 2 { rr.comm_rate } else { rr.tx_rate };
+                                if observed != er || (k == 3 && rr.comm_rate != er) {
                                     let d = lookups[rr.row];
-                                    push(Violation { kind: "answer_differs".into(), signature: classify(d), detail: format!("run {} (today {}, published_today {}, force {}, application path) row {} trade date {}: with cache rate {}, without cache {}", ri, today, pt, run.force, rr.row, d, rr.tx_rate, show_answer(&refs[rr.row])) }, &mut violations);
+                                    push(Violation { kind: "answer_differs".into(), signature: classify(d), detail: format!("run {} (today {}, published_today {}, force {}, application path) row {} (variant {}) trade date {}: with cache rate {} / commission rate {}, without cache {}", ri, today, pt, run.force, rr.row, k, d, rr.tx_rate, rr.comm_rate, show_answer(&refs[rr.row])) }, &mut violations);
                                 }
                             }
                         }
                     }
                     (Ok(_), false) => {
-                        let i = refs.iter().position(|r| r.is_err()).unwrap();
+                        let i = (0..refs.len()).position(|i| needs_lookup(i) && refs[i].is_err()).unwrap();
                         push(Violation { kind: "answer_differs".into(), signature: classify(lookups[i]), detail: format!("run {} (today {}, application path): without cache the look-up of {} fails ({}), with cache the run succeeded", ri, today, lookups[i], show_answer(&refs[i])) }, &mut violations);
                     }
                     (Err(e), true) => {
@@ -398,7 +453,8 @@ impl Engine for C13 {
                 if rq.ok {
                     *ok_by_year.entry(rq.year).or_insert(0) += 1;
                 }
-                if !run.force && rq.url_ok && !needed_years.contains(&rq.year) {
+                let read_fault = obs.proc.fs_faults_fired.contains_key("open_read_error") || obs.proc.fs_faults_fired.contains_key("read_error");
+                if !run.force && rq.url_ok && !needed_years.contains(&rq.year) && !read_fault {
                     push(Violation { kind: "unneeded_download".into(), signature: "download although the cached year covers every requested date".into(), detail: format!("run {} (today {}, not forced): request for {} although every date the look-ups {:?} need in that year was in the cache at the start of the run", ri, today, rq.year, run.lookups) }, &mut violations);
                 }
             }
@@ -438,13 +494,28 @@ impl Engine for C13 {
                 if run.lookups.len() > 1 {
                     let mut s = sc.clone();
                     s.runs[i].lookups.remove(j);
+                    if j < s.runs[i].row_kinds.len() {
+                        s.runs[i].row_kinds.remove(j);
+                    }
                     c.push(s);
                 }
             }
             if run.app_path {
                 let mut s = sc.clone();
                 s.runs[i].app_path = false;
+                s.runs[i].row_kinds.clear();
+                s.runs[i].app_files = 1;
                 c.push(s);
+                if run.app_files > 1 {
+                    let mut s = sc.clone();
+                    s.runs[i].app_files = 1;
+                    c.push(s);
+                }
+                if run.row_kinds.iter().any(|k| *k != 0) {
+                    let mut s = sc.clone();
+                    s.runs[i].row_kinds.clear();
+                    c.push(s);
+                }
             }
             if run.force {
                 let mut s = sc.clone();
@@ -528,7 +599,7 @@ impl Engine for C13 {
         "exploration"
     }
     fn rule(&self) -> String {
-        "Seeded histories: a publication calendar (as for C12), then 1-8 runs; run r is a fresh simulated process on today_r = today_{r-1} + gap (gap weighted over 0,1,2,3,4-10,11-40,~365 days), with a published-today flag (monotone within a day), force flag (p=0.15), direct or application path (p=1/3), and 1-8 look-up dates drawn relative to today (-9..+2), to the predicted frontier of each cached year (-3..+9), to year ends, to earlier look-ups, in ascending/descending/generated order; cache = real CsvRatesCache over SimFs (2/3) or real InMemoryRatesCache carried across processes (1/3); legal short reads/writes as a knob. Two of three histories are fault-free; every third (index % 3 == 2) injects network faults (error, HTML body, truncated JSON, empty body; p=1/4 per request) and, in a quarter of its runs, one file-system fault kind (EACCES on open/mkdir, ENOSPC after N bytes, EIO on rename/fsync). Oracle: each look-up equals the same look-up by the real code with no cache (fresh process, empty cache, forced) on the same snapshot; an Err is tolerated only for a look-up during which an injected network fault fired; successful downloads per (run, year) <= 1; when not forced, no request for a year whose needed dates (reference-model touched set) were all in the persisted cache at the start of the run. evaluations = histories; distinct_nontrivial = distinct histories in which some run started from a non-empty persisted cache.".to_string()
+        "Seeded histories: a publication calendar (as for C12), then 1-8 runs; run r is a fresh simulated process on today_r = today_{r-1} + gap (gap weighted over 0,1,2,3,4-10,11-40,~365 days), with a published-today flag (monotone within a day), force flag (p=0.15), direct or application path (p=1/3; rows spread over 1-3 CSV files sharing one loader, row variants: USD without rate, USD with explicit rate, CAD trade with USD commission, USD trade + USD commission), and 1-8 look-up dates drawn relative to today (-9..+2), to the predicted frontier of each cached year (-3..+9), to year ends, to earlier look-ups, in ascending/descending/generated order; cache = real CsvRatesCache over SimFs (2/3) or real InMemoryRatesCache carried across processes (1/3); legal short reads/writes as a knob. Two of three histories are fault-free; every third (index % 3 == 2) injects network faults (error, HTML body, truncated JSON, empty body; p=1/4 per request) and, in a quarter of its runs, one file-system fault kind (EACCES on open-for-write/mkdir/open-for-read, ENOSPC after N bytes, EIO on rename/fsync/read). Oracle: each look-up equals the same look-up by the real code with no cache (fresh process, empty cache, forced) on the same snapshot; an Err is tolerated only for a look-up during which an injected network fault fired; successful downloads per (run, year) <= 1; when not forced, no request for a year whose needed dates (reference-model touched set) were all in the persisted cache at the start of the run. evaluations = histories; distinct_nontrivial = distinct histories in which some run started from a non-empty persisted cache.".to_string()
     }
     fn state_measure(&self) -> String {
         "distinct (look-up date minus cached-year frontier bucket, date minus today bucket, published flag, force, year-loaded-from-cache-earlier-in-run, outcome class) tuples over direct look-ups".to_string()
@@ -562,6 +633,9 @@ impl Engine for C13 {
             "fault.net_http_empty_body",
             "fault.fs_enospc",
             "fault.fs_open_write_error",
+            "fault.fs_open_read_error",
+            "fault.fs_read_error",
+            "probe.app_path_several_files_one_loader",
             "fault.legal_short_writes",
         ]
     }
